@@ -2212,7 +2212,9 @@ import (
 // oracle: a pool can be started again after Shutdown - Start returns, whatever the previous life is still doing, and the
 // restarted pool runs the tasks it accepts
 func TestVerifReplay(t *testing.T) {
-	for _, busy := range []bool{false, true} {
+	// first with the previous life still busy and its dispatcher already past its loop (so that the restart does not need
+	// the pool mutex for the shutdown to go on), then with an immediate restart
+	for _, busy := range []bool{true, false} {
 		p := New("p", WithWorkerCount(2)).Start()
 		hold := make(chan struct{})
 		if busy {
@@ -2223,22 +2225,28 @@ func TestVerifReplay(t *testing.T) {
 			p.Submit(func() {})
 		}
 		p.Shutdown()
+		if busy {
+			time.Sleep(200 * time.Millisecond)
+		}
 		started := make(chan struct{})
 		go func() { p.Start(); close(started) }()
 		if busy {
-			time.Sleep(100 * time.Millisecond)
+			time.Sleep(200 * time.Millisecond)
 			close(hold)
 		}
 		select {
 		case <-started:
 		case <-time.After(3 * time.Second):
-			t.Fatalf("REPLAY-VIOLATION Shutdown(); Start() (a task of the previous life still running: %v): Start does not return within 3s - it waits for the workers of the previous life while holding the pool mutex, and their dispatcher needs that mutex (IsRunning) to close the dispatch channel", busy)
+			if busy {
+				t.Fatalf("REPLAY-VIOLATION Shutdown(); Start() while a task of the previous life is still running (its dispatcher has left its loop): Start does not return within 3s of that task's end")
+			}
+			t.Fatalf("REPLAY-VIOLATION Shutdown(); Start() at once: Start does not return within 3s - it waits for the workers of the previous life while holding the pool mutex, and their dispatcher needs that mutex (IsRunning) to close the dispatch channel")
 		}
 		ran := make(chan struct{})
 		func() {
 			defer func() {
 				if r := recover(); r != nil {
-					t.Fatalf("REPLAY-VIOLATION Submit on the restarted pool panics: %v", r)
+					t.Fatalf("REPLAY-VIOLATION restart while a task of the previous life is still running (%v): Submit on the restarted pool panics: %v", busy, r)
 				}
 			}()
 			p.Submit(func() { close(ran) })
@@ -2246,7 +2254,7 @@ func TestVerifReplay(t *testing.T) {
 		select {
 		case <-ran:
 		case <-time.After(3 * time.Second):
-			t.Fatalf("REPLAY-VIOLATION a task accepted by the restarted pool is not run within 3s")
+			t.Fatalf("REPLAY-VIOLATION restart while a task of the previous life is still running (%v): a task accepted by the restarted pool is not run within 3s", busy)
 		}
 		p.Shutdown()
 		p.ShutdownComplete.Wait()
